@@ -680,6 +680,11 @@ class Executor(object):
                 m = self.models.kind_attr(self, st, c, attr, self_val, cls_val)
                 if m is not None:
                     return m
+        # an attribute nobody in the MRO defines: a genuine AttributeError only when the whole MRO is in-repo code
+        # (plus `object`); on a modelled dependency kind it is a gap of the model -> the function is unreached
+        deps = [c for c in mro if not isinstance(c, ClassInfo) and c != "object"]
+        if deps:
+            raise Unsupported("attribute %s of dependency kind %s is not modelled" % (attr, deps[0]))
         return self.raise_(st, "AttributeError", VT(tm.S("no attribute %s" % attr)))
 
     def apply_decorator(self, dname, fn, ci, st, fr):
@@ -843,6 +848,20 @@ class Executor(object):
                     res.append((s.set(cur, "items", list(s.get(cur, "items")) + [feat]), "ok", NONE))
                 else:
                     raise Unsupported("features.append on %r" % (cur,))
+            return res
+
+        # `name.append(x)` on a local bound to a symbolic sequence: rebinding of the local
+        if (isinstance(node.func, ast.Attribute) and node.func.attr == "append" and isinstance(node.func.value, ast.Name)
+                and isinstance(st.env.get(node.func.value.id), VT) and st.env[node.func.value.id].t.sort.startswith("(Seq")
+                and len(node.args) == 1 and not node.keywords):
+            res = []
+            cur = st.env[node.func.value.id]
+            for (s, tag, v) in self.eval(node.args[0], st, fr):
+                if tag != "ok":
+                    res.append((s, tag, v))
+                    continue
+                e = self.models.as_elem(self, s, v, tm.elem_sort(cur.t.sort))
+                res.append((s.with_env(node.func.value.id, VT(tm.seqcat(cur.t, tm.sequnit(e)), "list")), "ok", NONE))
             return res
 
         def after_func(s, f):
